@@ -375,7 +375,55 @@ func c12(c *Ctx) {
 	}
 
 	c.Rule("R5", "E3 dominance", "drop aggregation and de-duplication: a nil measure is never appended or registered; a measure whose aggregator id was already seen is not appended twice", 4)
-	if fn := c.Fn(mx, "R5", "(*inserter).Instrument"); fn != nil {
+	ruleInserterDedup(c, mx, "R5")
+	if fn := c.Fn(mx, "R5", "(*inserter).cachedAggregator"); fn != nil {
+		addSync := mx.Func("(*pipeline).addSync")
+		for _, s := range mx.FindCalls(func(f *FuncInfo, call *ast.CallExpr) bool {
+			return mx.Outer(f) == fn && callToDecl(minfo, addSync)(call)
+		}) {
+			g := mx.FG(s.F)
+			x := g.NodeOf(s.N)
+			ok, why := g.DominatedByEdges(x, func(e *GEdge) bool {
+				return edgeImplies(e, func(cnd ast.Expr, pol int) bool {
+					nn, good := nilCmp(minfo, cnd, pol, func(y ast.Expr) bool {
+						tv, has := minfo.Types[y]
+						if !has {
+							return false
+						}
+						n := namedOf(tv.Type)
+						return n != nil && n.Obj().Name() == "Measure" && n.Obj().Pkg() != nil && n.Obj().Pkg().Path() == aggPkg
+					})
+					return good && nn
+				})
+			})
+			c.Check(ok, "R5", "sdk/metric|(*inserter).cachedAggregator|addSync only for a non-nil measure", mx.at(s), "drop aggregation registers nothing", "a dropped stream is registered for collection: "+why)
+		}
+	}
+
+	// the attribute filter hands the aggregators a set whose identity must be that of the canonical set with the same contents
+	// (attribute/set.go is among this property's anchors): kept attributes stay in key order
+	// views: whatever aggregate inputs an inserter could build for a reader are wired to the instrument, also when it reports an
+	// error for another view of the same instrument next to them (the clause "re-aggregating views neither lose nor duplicate
+	// measurements"; same rule as C02.R5 for these two sites)
+	c.Rule("R7", "E3 total fan-out", "resolver.Aggregators / HistogramAggregators append the measures of every reader pipeline on every iteration, error or not", 2)
+	isAppendMeasures := func(info *types.Info, call *ast.CallExpr) bool {
+		return builtinName(info, call) == "append" && call.Ellipsis.IsValid()
+	}
+	ruleFanout(c, mx, "R7", "resolver.Aggregators", isAppendMeasures, "append(measures, in...)")
+	ruleFanout(c, mx, "R7", "resolver.HistogramAggregators", isAppendMeasures, "append(measures, in...)")
+
+	c.Rule("R6", "E4 callee identity", "Set.Filter / NewSetWithFiltered keep the kept attributes in key order (no unstable sort over attribute slices): streams that become identical under a view's filter get the same identity and are added together", 1)
+	if atx := c.Index(".", otelAttr); atx != nil {
+		ruleNoUnstableAttrSort(c, atx, "R6")
+	}
+}
+
+// ruleInserterDedup: the inserter turns the views matching an instrument into measure functions — no nil measure, one measure per
+// distinct aggregator (the set is keyed by the id that came with that measure), and a drop result cannot hide a real aggregator.
+// Shared by C12.R5 (views neither lose nor duplicate measurements) and C02.R11 (each measurement is counted once).
+func ruleInserterDedup(c *Ctx, mx *PkgIndex, rule string) {
+	minfo := mx.Pkg.TypesInfo
+	if fn := c.Fn(mx, rule, "(*inserter).Instrument"); fn != nil {
 		// every append of a measure function in the inserter's methods (Instrument and the helpers it may be split into)
 		isMeasure := func(t types.Type) bool {
 			n := namedOf(t)
@@ -419,7 +467,7 @@ func c12(c *Ctx) {
 					return good && nn
 				})
 			})
-			c.Check(ok, "R5", "sdk/metric|"+a.f.Name+"|append #"+itoa(cnt[a.f.Name])+" dominated by in != nil", at(mx.M, a.x.N.Pos()), "dropped streams add no measure", "a nil measure function is appended and later called: "+why)
+			c.Check(ok, rule, "sdk/metric|"+a.f.Name+"|append #"+itoa(cnt[a.f.Name])+" dominated by in != nil", at(mx.M, a.x.N.Pos()), "dropped streams add no measure", "a nil measure function is appended and later called: "+why)
 			if !a.g.InCycle(a.x) {
 				continue
 			}
@@ -457,51 +505,182 @@ func c12(c *Ctx) {
 					return false
 				})
 			})
-			c.Check(good, "R5", "sdk/metric|"+a.f.Name+"|view-loop append dominated by the id-not-seen test", at(mx.M, a.x.N.Pos()), "one measure per distinct aggregator",
+			c.Check(good, rule, "sdk/metric|"+a.f.Name+"|view-loop append dominated by the id-not-seen test", at(mx.M, a.x.N.Pos()), "one measure per distinct aggregator",
 				"two views resolving to the same aggregator make every measurement count twice (no membership test on a set of aggregator ids guards the append)")
+			// the set is keyed by the identity of the aggregator the measure belongs to: the id handed back by the same look-up that
+			// handed back the measure (two streams that differ in a non-identifying field resolve to one aggregator; a key computed
+			// from the stream tells them apart and the shared measure is appended twice)
+			{
+				var idObjs []types.Object
+				var lookup *ast.CallExpr
+				inspectNoLit(a.f.Body(), func(n ast.Node) bool {
+					as, ok := n.(*ast.AssignStmt)
+					if !ok || len(as.Rhs) != 1 || len(as.Lhs) < 2 {
+						return true
+					}
+					call, ok := unparen(as.Rhs[0]).(*ast.CallExpr)
+					if !ok {
+						return true
+					}
+					hasIn := false
+					for _, l := range as.Lhs {
+						if in != nil && sameVar(minfo, l, in) {
+							hasIn = true
+						}
+					}
+					if !hasIn {
+						return true
+					}
+					lookup = call
+					for _, l := range as.Lhs {
+						if o := objOf(minfo, l); o != nil && !(in != nil && o == in) {
+							if b, isB := o.Type().Underlying().(*types.Basic); isB && b.Info()&types.IsInteger != 0 {
+								idObjs = append(idObjs, o)
+							}
+						}
+					}
+					return true
+				})
+				if lookup != nil {
+					keyOK, keyN := true, 0
+					isID := func(e ast.Expr) bool {
+						for _, o := range idObjs {
+							if sameVar(minfo, e, o) {
+								return true
+							}
+						}
+						return false
+					}
+					inspectNoLit(a.f.Body(), func(n ast.Node) bool {
+						switch x := n.(type) {
+						case *ast.IndexExpr:
+							if tv, has := minfo.Types[x.X]; has {
+								if _, isMap := tv.Type.Underlying().(*types.Map); isMap {
+									if v, ok := objOf(minfo, x.X).(*types.Var); ok && !v.IsField() && a.g.InCycle(a.g.NodeOf(x)) {
+										keyN++
+										if !isID(x.Index) {
+											keyOK = false
+										}
+									}
+								}
+							}
+						case *ast.CallExpr:
+							if (isCallTo(minfo, x, "slices.Contains") || isCallTo(minfo, x, "slices.Index")) && len(x.Args) == 2 {
+								if v, isV := objOf(minfo, x.Args[0]).(*types.Var); isV && !v.IsField() {
+									keyN++
+									if !isID(x.Args[1]) {
+										keyOK = false
+									}
+								}
+							}
+						}
+						return true
+					})
+					if keyN > 0 {
+						c.Check(keyOK, rule, "sdk/metric|"+a.f.Name+"|the seen-set is keyed by the aggregator id that came with the measure", at(mx.M, a.x.N.Pos()), itoa(keyN)+" access(es), all by the id result of "+exprStr(lookup.Fun),
+							"the set of handled aggregators is keyed by something other than the id returned with the measure: two views whose streams differ only in a field the aggregator cache ignores share one aggregator, are not recognised as the same, and every measurement is counted twice")
+					}
+				}
+			}
+			// an id enters the set only together with a real measure — or the ids of real aggregators cannot equal the id that comes
+			// with a nil measure (drop / error results carry the zero id): otherwise a drop view listed first hides the aggregator
+			// that happens to own that id, and its stream loses every measurement
+			{
+				var setStores []*GNode
+				for _, y := range a.g.Nodes {
+					as, ok := y.N.(*ast.AssignStmt)
+					if !ok || !a.g.InCycle(y) {
+						continue
+					}
+					for i, l := range as.Lhs {
+						if ie, ok := unparen(l).(*ast.IndexExpr); ok {
+							if tv, has := minfo.Types[ie.X]; has {
+								if _, isMap := tv.Type.Underlying().(*types.Map); isMap {
+									if v, ok := objOf(minfo, ie.X).(*types.Var); ok && !v.IsField() {
+										setStores = append(setStores, y)
+									}
+								}
+							}
+						}
+						if i < len(as.Rhs) {
+							if call, ok := unparen(as.Rhs[i]).(*ast.CallExpr); ok && builtinName(minfo, call) == "append" && len(call.Args) == 2 {
+								if v, ok := objOf(minfo, l).(*types.Var); ok && !v.IsField() {
+									if tv, has := minfo.Types[call.Args[1]]; has && !isMeasure(tv.Type) {
+										if b, isB := tv.Type.Underlying().(*types.Basic); isB && b.Info()&types.IsInteger != 0 {
+											setStores = append(setStores, y)
+										}
+									}
+								}
+							}
+						}
+					}
+				}
+				guarded := len(setStores) > 0
+				for _, y := range setStores {
+					ok, _ := a.g.DominatedByEdges(y, func(e *GEdge) bool {
+						return edgeImplies(e, func(cnd ast.Expr, pol int) bool {
+							nn, good := nilCmp(minfo, cnd, pol, func(z ast.Expr) bool { return in != nil && sameVar(minfo, z, in) })
+							return good && nn
+						})
+					})
+					if !ok {
+						guarded = false
+					}
+				}
+				// ids of real aggregators start above zero: the value returned by an atomic add of a positive constant
+				preInc := false
+				if ca := mx.Func("(*inserter).cachedAggregator"); ca != nil {
+					for _, f := range mx.All {
+						if mx.Outer(f) != ca {
+							continue
+						}
+						fg := mx.FG(f)
+						inspectNoLit(f.Body(), func(n ast.Node) bool {
+							cl, ok := n.(*ast.CompositeLit)
+							if !ok || len(cl.Elts) == 0 {
+								return true
+							}
+							if nn := namedOf(minfo.TypeOf(cl)); nn == nil || nn.Obj().Name() != "aggVal" {
+								return true
+							}
+							idx := cl.Elts[0]
+							if kv, isKV := idx.(*ast.KeyValueExpr); isKV {
+								idx = nil
+								for _, el := range cl.Elts {
+									if k2, ok := el.(*ast.KeyValueExpr); ok {
+										if kid, ok := k2.Key.(*ast.Ident); ok && kid.Name == "ID" {
+											idx = k2.Value
+										}
+									}
+								}
+								_ = kv
+							}
+							if idx == nil {
+								return true
+							}
+							e := unparen(idx)
+							if id, isID := e.(*ast.Ident); isID {
+								if d := fg.LocalDef(minfo.Uses[id]); d != nil {
+									e = unparen(d)
+								}
+							}
+							if call, ok := e.(*ast.CallExpr); ok && len(call.Args) >= 1 {
+								if isCallTo(minfo, call, "sync/atomic.AddUint64") || isCallTo(minfo, call, "sync/atomic.AddInt64") || isCallTo(minfo, call, "(*sync/atomic.Uint64).Add") || isCallTo(minfo, call, "(*sync/atomic.Int64).Add") {
+									if v, isC := constInt(minfo, call.Args[len(call.Args)-1]); isC && v > 0 {
+										preInc = true
+									}
+								}
+							}
+							return true
+						})
+					}
+				}
+				c.Check(guarded || preInc, rule, "sdk/metric|"+a.f.Name+"|a drop result cannot mark a real aggregator as seen", at(mx.M, a.x.N.Pos()), "ids enter the set only with a real measure (or real ids are never the zero id)",
+					"the id that comes with a nil measure (0) is recorded as seen, and real aggregator ids are not shown to differ from it: a drop or failed view listed before another view makes that view's stream lose every measurement")
+			}
 		}
 		if len(apps) < 2 || nLoop < 1 {
-			c.Violation("R5", "sdk/metric|(*inserter).Instrument|appends", at(mx.M, fn.Pos()), "expected the view-loop append and the default-stream append in the inserter's methods, found "+itoa(len(apps))+" ("+itoa(nLoop)+" in a loop)")
+			c.Violation(rule, "sdk/metric|(*inserter).Instrument|appends", at(mx.M, fn.Pos()), "expected the view-loop append and the default-stream append in the inserter's methods, found "+itoa(len(apps))+" ("+itoa(nLoop)+" in a loop)")
 		}
-	}
-	if fn := c.Fn(mx, "R5", "(*inserter).cachedAggregator"); fn != nil {
-		addSync := mx.Func("(*pipeline).addSync")
-		for _, s := range mx.FindCalls(func(f *FuncInfo, call *ast.CallExpr) bool {
-			return mx.Outer(f) == fn && callToDecl(minfo, addSync)(call)
-		}) {
-			g := mx.FG(s.F)
-			x := g.NodeOf(s.N)
-			ok, why := g.DominatedByEdges(x, func(e *GEdge) bool {
-				return edgeImplies(e, func(cnd ast.Expr, pol int) bool {
-					nn, good := nilCmp(minfo, cnd, pol, func(y ast.Expr) bool {
-						tv, has := minfo.Types[y]
-						if !has {
-							return false
-						}
-						n := namedOf(tv.Type)
-						return n != nil && n.Obj().Name() == "Measure" && n.Obj().Pkg() != nil && n.Obj().Pkg().Path() == aggPkg
-					})
-					return good && nn
-				})
-			})
-			c.Check(ok, "R5", "sdk/metric|(*inserter).cachedAggregator|addSync only for a non-nil measure", mx.at(s), "drop aggregation registers nothing", "a dropped stream is registered for collection: "+why)
-		}
-	}
-
-	// the attribute filter hands the aggregators a set whose identity must be that of the canonical set with the same contents
-	// (attribute/set.go is among this property's anchors): kept attributes stay in key order
-	// views: whatever aggregate inputs an inserter could build for a reader are wired to the instrument, also when it reports an
-	// error for another view of the same instrument next to them (the clause "re-aggregating views neither lose nor duplicate
-	// measurements"; same rule as C02.R5 for these two sites)
-	c.Rule("R7", "E3 total fan-out", "resolver.Aggregators / HistogramAggregators append the measures of every reader pipeline on every iteration, error or not", 2)
-	isAppendMeasures := func(info *types.Info, call *ast.CallExpr) bool {
-		return builtinName(info, call) == "append" && call.Ellipsis.IsValid()
-	}
-	ruleFanout(c, mx, "R7", "resolver.Aggregators", isAppendMeasures, "append(measures, in...)")
-	ruleFanout(c, mx, "R7", "resolver.HistogramAggregators", isAppendMeasures, "append(measures, in...)")
-
-	c.Rule("R6", "E4 callee identity", "Set.Filter / NewSetWithFiltered keep the kept attributes in key order (no unstable sort over attribute slices): streams that become identical under a view's filter get the same identity and are added together", 1)
-	if atx := c.Index(".", otelAttr); atx != nil {
-		ruleNoUnstableAttrSort(c, atx, "R6")
 	}
 }
